@@ -22,7 +22,11 @@ pub fn main() {
         let harness = a.get(2).cloned().unwrap_or_default();
         let vals: Vec<Vec<u8>> = a.get(3).map(|s| s.split(';').filter(|x| !x.is_empty()).map(|h| (0..h.len() / 2).map(|i| u8::from_str_radix(&h[2 * i..2 * i + 2], 16).unwrap()).collect()).collect()).unwrap_or_default();
         crate::query::verif_k::kani::set_inputs(vals);
-        let r = std::panic::catch_unwind(|| super::comparison::verif_kani_cmp::replay(&harness) || super::selector::verif_kani_idx::replay(&harness));
+        #[cfg(feature = "vx_cmp")] fn rp_cmp(h: &str) -> bool { crate::query::comparison::verif_kani_cmp::replay(h) }
+        #[cfg(not(feature = "vx_cmp"))] fn rp_cmp(_h: &str) -> bool { false }
+        #[cfg(feature = "vx_sel")] fn rp_idx(h: &str) -> bool { crate::query::selector::verif_kani_idx::replay(h) }
+        #[cfg(not(feature = "vx_sel"))] fn rp_idx(_h: &str) -> bool { false }
+        let r = std::panic::catch_unwind(|| rp_cmp(&harness) || rp_idx(&harness));
         let (reproduced, note) = match &r {
             Ok(true) => (false, "harness ran to completion: every assertion held on these values".to_string()),
             Ok(false) => (false, "unknown harness".to_string()),
